@@ -44,6 +44,9 @@ func runC10(c *Ctx) {
 		r.Check("C10.constants", "internal/counter."+k, "-", got == c10Consts[k], fmt.Sprintf("documented v1 value %q, source has %q (a change is a format change)", c10Consts[k], got))
 	}
 	c10Hash(c, m)
+	// a process attaches only to a file whose whole header is the one it would have written (the
+	// offsets of limit, table and records follow from the header length)
+	c09HeaderVerified(c, m, "C10.record-offsets")
 	c10Offsets(c, m)
 	c10Alignment(c, m)
 	c10ExtendTail(c, m, "C10.page-tail")
@@ -307,24 +310,7 @@ func c10Offsets(c *Ctx, m *Module) {
 	}
 	r.Check("C10.record-offsets", "writeEntryAt/field roles", m.Pos(w.Pos()), rs(wRoles) == wantRoles, "documented: value at +0, name length at +8, next link at +12; writer: "+rs(wRoles))
 	r.Check("C10.record-offsets", "entryAt/field roles", m.Pos(e.Pos()), rs(eRoles) == wantRoles, "reader: "+rs(eRoles))
-	// length tag vs mask
-	var tag, mask int64 = -1, -1
-	for _, in := range instrsOf(w) {
-		if b, ok := in.(*ssa.BinOp); ok && b.Op == token.OR {
-			if k, isC := intConst(b.Y); isC {
-				tag = k
-			}
-		}
-	}
-	for _, in := range instrsOf(e) {
-		if b, ok := in.(*ssa.BinOp); ok && b.Op == token.AND {
-			if k, isC := intConst(b.Y); isC {
-				mask = k
-			}
-		}
-	}
-	r.Check("C10.record-offsets", "length word: writer tag and reader mask are complementary", m.Pos(e.Pos()), tag == 0xff000000 && mask == 0x00ffffff,
-		fmt.Sprintf("writer ORs %#x, reader ANDs %#x (documented: length in the low 24 bits)", tag, mask))
+	c10LengthWord(c, m, "C10.record-offsets")
 	// header: mappedHeader writes the length word at round(len(hdrPrefix),4), metadata at +4; Parse reads both
 	mh := m.Func("internal/counter", "mappedHeader")
 	pa := m.Func("internal/counter", "Parse")
@@ -637,3 +623,95 @@ func c10Limit(c *Ctx, m *Module, rule string) {
 }
 
 func precedesBlock(a ssa.Instruction, b ssa.Instruction) bool { return false }
+
+// c10LengthWord: the record's name-length word. The writer tags it (|0xff000000), the reader
+// masks it (&0x00ffffff: the documented low 24 bits, wide enough for every legal length up to
+// maxNameLen inclusive), and the reader rejects a decoded length only when it is zero or the
+// record would end beyond the file — never by comparing it with another bound (a reader that
+// refuses a length the writer accepts makes a conforming file unreadable). Shared by the
+// properties that depend on every written record being readable (C01, C04, C06, C10).
+func c10LengthWord(c *Ctx, m *Module, rule string) {
+	r := c.R
+	w := m.Func("internal/counter", "mappedFile.writeEntryAt")
+	e := m.Func("internal/counter", "mappedFile.entryAt")
+	var tag, mask int64 = -1, -1
+	var masked ssa.Value
+	for _, in := range instrsOf(w) {
+		if b, ok := in.(*ssa.BinOp); ok && b.Op == token.OR {
+			if k, isC := intConst(b.Y); isC {
+				tag = k
+			}
+		}
+	}
+	for _, in := range instrsOf(e) {
+		if b, ok := in.(*ssa.BinOp); ok && b.Op == token.AND {
+			if k, isC := intConst(b.Y); isC {
+				mask = k
+				masked = b
+			}
+		}
+	}
+	r.Check(rule, "length word: writer tag and reader mask are complementary", m.Pos(e.Pos()), tag == 0xff000000 && mask == 0x00ffffff,
+		fmt.Sprintf("writer ORs %#x, reader ANDs %#x (documented: length in the low 24 bits)", tag, mask))
+	if masked == nil {
+		return
+	}
+	// every comparison the decoded length takes part in
+	isLen := func(v ssa.Value) bool {
+		v = strip(v)
+		for i := 0; i < 3; i++ {
+			if cv, ok := v.(*ssa.Convert); ok {
+				v = strip(cv.X)
+			}
+		}
+		return v == masked
+	}
+	var hasLen func(v ssa.Value, depth int) bool
+	hasLen = func(v ssa.Value, depth int) bool {
+		if depth > 6 {
+			return false
+		}
+		if isLen(v) {
+			return true
+		}
+		switch x := strip(v).(type) {
+		case *ssa.BinOp:
+			return hasLen(x.X, depth+1) || hasLen(x.Y, depth+1)
+		case *ssa.Convert:
+			return hasLen(x.X, depth+1)
+		}
+		return false
+	}
+	n := 0
+	for _, in := range instrsOf(e) {
+		b, ok := in.(*ssa.BinOp)
+		if !ok {
+			continue
+		}
+		switch b.Op {
+		case token.EQL, token.NEQ, token.LSS, token.LEQ, token.GTR, token.GEQ:
+		default:
+			continue
+		}
+		if !hasLen(b.X, 0) && !hasLen(b.Y, 0) {
+			continue
+		}
+		n++
+		okCmp := false
+		detail := shortDesc(describe(b))
+		switch {
+		case (b.Op == token.EQL || b.Op == token.NEQ) && ((isLen(b.X) && isZeroConst(b.Y)) || (isLen(b.Y) && isZeroConst(b.X))):
+			okCmp = true // an empty name is not a record
+		case strings.Contains(describe(b.X), "mapping.Data") || strings.Contains(describe(b.Y), "mapping.Data"):
+			okCmp = !isLen(b.X) && !isLen(b.Y) // the record's end (offset + 16 + length) against the file's length
+		}
+		r.Check(rule, fmt.Sprintf("entryAt/decoded length is tested only for zero and for fitting the file #%d", n), m.Pos(b.Pos()), okCmp,
+			"the writer accepts every name of 1..maxNameLen bytes; a reader that bounds the decoded length otherwise refuses records the writer wrote: "+detail)
+	}
+	r.Check(rule, "entryAt/length tests enumerated", m.Pos(e.Pos()), n >= 2, fmt.Sprintf("%d", n))
+}
+
+func isZeroConst(v ssa.Value) bool {
+	k, ok := intConst(v)
+	return ok && k == 0
+}
